@@ -85,7 +85,11 @@ func VerifC06_Modifiers() {
 	}
 	sa, groups := verifWorld(env, q1, q2)
 	// the contact: arbitrary name (≤ 2 bytes), language, twitter URN, age
-	c := flows.NewEmptyContact(sa, verifShort("name", 1), verifSymLang("language"), nil)
+	nameLen := 1
+	if zzverif.Thorough() {
+		nameLen = 2
+	}
+	c := flows.NewEmptyContact(sa, verifShort("name", nameLen), verifSymLang("language"), nil)
 	if zzverif.Choice("has-twitter", 2) == 1 {
 		c.AddURN("twitter:bob", nil)
 	}
